@@ -22,7 +22,12 @@ RULE = ('C01-style World histories plus dispatch_enabled toggles, probe '
         '(disabled); is_handler(c) == attached for every instance ever '
         'created; a probe reaches exactly the attached probe listeners. '
         'Non-trivial = >=2 lifecycle callbacks postponed across one disable/'
-        'enable cycle, or detaches by >=2 different routes.')
+        'enable cycle, or detaches by >=2 different routes.'
+        ' Rounds 9-13 added (vf/reentry.py): nested batches inside a release'
+        ' (disable, attach/detach, enable; or a raising callback, the'
+        ' program enabling again), a second World listening to the world,'
+        ' components nobody refers to that are owed postponed callbacks, the'
+        ' pinned suite under the registration invariant.')
 ANCHORS = [
     'desper/logic/world.py::World.create_entity',
     'desper/logic/world.py::World.add_component',
